@@ -11,16 +11,18 @@ open ZV
 
 /-! ## Go integer conversions -/
 
+def two64i : Int := 18446744073709551616
+
 /-- `int64(x)` for a `uint64` value x (given as a natural number, reduced mod 2^64) -/
 def toInt64 (n : Nat) : Int :=
   let m := n % two64
-  if m < two63 then (m : Int) else (m : Int) - (two64 : Int)
+  if m < two63 then (m : Int) else (m : Int) - two64i
 
 /-- wrap-around of an `int64` computation -/
-def wrap64 (i : Int) : Int := toInt64 (i % (two64 : Int)).toNat
+def wrap64 (i : Int) : Int := toInt64 (i % two64i).toNat
 
 /-- `uint64(x)` for an `int64` value x -/
-def toUInt64 (i : Int) : Nat := (i % (two64 : Int)).toNat
+def toUInt64 (i : Int) : Nat := (i % two64i).toNat
 
 /-! ## Election (consensus/election_algorithm.go) -/
 
@@ -134,5 +136,99 @@ def IsSort (sort : List PD → List PD) : Prop :=
 /-- the assumption on `rand.Perm` -/
 def IsPerm (perm : Int → Nat → List Nat) : Prop :=
   ∀ s n, (perm s n).Perm (List.range n)
+
+/-! ## Ticker (common/ticker.go). Instants and durations are integers in nanoseconds. -/
+
+def nsPerSec : Int := 1000000000
+def maxDuration : Int := 9223372036854775807
+def minDuration : Int := -9223372036854775808
+
+/-- `time.Time.Sub`: the difference, saturated to the int64 nanosecond range -/
+def timeSub (t u : Int) : Int :=
+  let d := t - u
+  if d > maxDuration then maxDuration else if d < minDuration then minDuration else d
+
+/-- `Duration.Seconds()` converted to an integer type. `Seconds()` is `float64(d/Second) + float64(d%Second)/1e9`;
+    for a whole number of seconds (all instants on the consensus path are `time.Unix(sec, 0)`, the interval is
+    `time.Second * k`) the float is exact (|sec| < 2^34) and the conversion is the truncated quotient. For other
+    durations Go's float rounding may add one; the driver refuses such inputs (`wholeSeconds`). -/
+def durSeconds (d : Int) : Int := Int.tdiv d nsPerSec
+
+def wholeSeconds (d : Int) : Bool := d % nsPerSec == 0
+
+/-- `common.ticker` -/
+structure Ticker where
+  start : Int      -- startTime, ns since the Unix epoch
+  interval : Int   -- time.Duration, ns
+deriving Repr
+
+/-- `ticker.ToTime`: `startTime.Add(interval * time.Duration(tick))`, int64 product with wrap-around -/
+def Ticker.toTime (tk : Ticker) (tick : Nat) : Int × Int :=
+  (tk.start + wrap64 (tk.interval * toInt64 tick), tk.start + wrap64 (tk.interval * toInt64 (tick + 1)))
+
+/-- `ticker.ToTick`: `uint64(int64(time.Sub(start).Seconds())) / uint64(interval.Seconds())`;
+    `none` = integer divide by zero -/
+def Ticker.toTick (tk : Ticker) (t : Int) : Option Nat :=
+  let subSec := durSeconds (timeSub t tk.start)
+  let iv := toUInt64 (durSeconds tk.interval)
+  if iv = 0 then none else some (toUInt64 subSec / iv)
+
+/-- `consensus.Context` (NewConsensusContext): ticker interval = BlockTime * NodeCount seconds -/
+structure Ctx where
+  genesis : Int       -- GenesisTime, ns
+  blockTime : Int     -- int64 seconds
+  nodeCount : Nat     -- uint8
+deriving Repr
+
+/-- `time.Second*time.Duration(uint64(config.BlockTime)*uint64(config.NodeCount))` -/
+def Ctx.ticker (c : Ctx) : Ticker :=
+  ⟨c.genesis, wrap64 (nsPerSec * toInt64 (toUInt64 c.blockTime * c.nodeCount))⟩
+
+/-- `consensus.ProducerEvent` -/
+structure ProducerEvent where
+  startTime : Int
+  endTime : Int
+  producer : Bytes
+deriving Repr, DecidableEq
+
+/-- the loop of `generateProducers`: `etime := sTime.Add(Duration(BlockTime) * Second)`; append; `sTime = etime` -/
+def genEvents (blockTime : Int) : Int → List Bytes → List ProducerEvent
+  | _, [] => []
+  | s, a :: as =>
+    let e := s + wrap64 (blockTime * nsPerSec)
+    ⟨s, e, a⟩ :: genEvents blockTime e as
+
+/-- `consensus.generateProducers(info, tick, producerAddresses)` (nil when the count is not NodeCount) -/
+def generateProducers (c : Ctx) (tick : Nat) (addrs : List Bytes) : List ProducerEvent :=
+  if addrs.length ≠ c.nodeCount then [] else genEvents c.blockTime (c.ticker.toTime tick).1 addrs
+
+/-- `electionManager.genProofTime` -/
+def genProofTime (c : Ctx) (tick : Nat) : Int :=
+  if tick < 2 then c.genesis + nsPerSec else (c.ticker.toTime (tick - 2)).2
+
+deriving instance DecidableEq for Except
+
+/-- reasons for which `GetMomentumProducer` returns an error -/
+inductive ProducerErr where
+  | beforeGenesis      -- ErrElectionBeforeGenesis
+  | divByZero          -- panic in ToTick
+  | electionFailed     -- getMomentumBeforeTime / ComputePillarDelegations / name lookup failed
+  | noSlotStartsHere   -- "couldn't find producer for timestamp"
+deriving DecidableEq, Repr
+
+/-- `consensus.GetMomentumProducer(timestamp)`; `elected tick` = `data.Producers` of `ElectionByTick(tick)`
+    (the addresses of the election result for the tick's proof momentum) or `none` when that fails. -/
+def getMomentumProducer (c : Ctx) (elected : Nat → Option (List Bytes)) (t : Int) : Except ProducerErr Bytes :=
+  if t < c.genesis then .error .beforeGenesis          -- ElectionByTime: t.Before(GenesisTime)
+  else match c.ticker.toTick t with
+    | none => .error .divByZero
+    | some tick =>
+      if toInt64 tick < 0 then .error .beforeGenesis   -- ElectionByTick: int64(tick) < 0
+      else match elected tick with
+        | none => .error .electionFailed
+        | some addrs =>
+          match (generateProducers c tick addrs).find? (fun p => p.startTime == t) with   -- plan.StartTime == timestamp
+          | some p => .ok p.producer
+          | none => .error .noSlotStartsHere
 
 end ZV.Consensus
